@@ -144,6 +144,7 @@ type Exec struct {
 	inlineDepth int
 	ghostExec bool
 	bodyHash string
+	contentStrings bool
 	quantDepth int
 	exitAfterHooks bool
 	boxed map[types.Object]bool
@@ -188,6 +189,7 @@ type State struct {
 	path   []string
 	dead   bool
 	groups map[string][]*groupDelta
+	loopPre map[string]*State
 	specDef map[string]*Term // non-nil while translating a spec function body: heaps become parameters
 }
 
@@ -206,6 +208,7 @@ func (s *State) clone() *State {
 		dead:   s.dead,
 		specDef: s.specDef,
 		groups: s.groups,
+		loopPre: s.loopPre,
 	}
 	for k, v := range s.vars {
 		n.vars[k] = v
@@ -474,10 +477,14 @@ func (ex *Exec) stringAxioms() []*Term {
 		a, b := mk("a?", SStr), mk("b?", SStr)
 		cat := ex.D.app("st.cat", SStr, a, b)
 		out = append(out, forall([]*Term{a, b}, eq(ex.strLen(cat), add(ex.strLen(a), ex.strLen(b))), []*Term{cat}))
-		i := mk("i?", SInt)
-		out = append(out, forall([]*Term{a, b, i},
-			eq(ex.strAt(cat, i), ite(lt(i, ex.strLen(a)), ex.strAt(a, i), ex.strAt(b, sub(i, ex.strLen(a))))),
-			[]*Term{ex.strAt(cat, i)}))
+		if ex.contentStrings {
+			// byte-level view of concatenations: only on request (it can send
+			// E-matching into long instantiation chains)
+			i := mk("i?", SInt)
+			out = append(out, forall([]*Term{a, b, i},
+				eq(ex.strAt(cat, i), ite(lt(i, ex.strLen(a)), ex.strAt(a, i), ex.strAt(b, sub(i, ex.strLen(a))))),
+				[]*Term{ex.strAt(cat, i)}))
+		}
 		// cancellation: a ++ b = a ++ c => b = c is not generally needed.
 	}
 	var keys []string
